@@ -242,4 +242,222 @@ theorem writePieces_ok : ∀ (ps : List (List UInt8)) (script : List Ev), Script
     refine ⟨s2, hs2.trans hs1, ?_⟩
     simp only [writePieces, e1, e2, List.flatten_cons]
 
+
+/-! ### arbitrary scripts: which events were consumed, and what a consumed hard error does -/
+
+def ExactRes.isFailed : ExactRes → Bool
+  | .failed => true
+  | _ => false
+
+def ReadRes.isFailed : ReadRes → Bool
+  | .failed => true
+  | _ => false
+
+theorem read_consumed (r : Reader) (want : Nat) : ∃ pre, r.script = pre ++ (r.read want).2.script ∧
+    ((r.read want).1.isFailed = true ↔ Ev.fail ∈ pre) := by
+  rcases read_cases r want with ⟨hs, hr⟩ | ⟨k, s, hs, hr⟩ | ⟨s, hs, hr⟩ | ⟨s, hs, hr⟩
+  · exact ⟨[], by simp [hr, hs], by simp [hr, ReadRes.isFailed]⟩
+  · exact ⟨[.give k], by simp [hr, hs], by simp [hr, ReadRes.isFailed]⟩
+  · exact ⟨[.interrupted], by simp [hr, hs], by simp [hr, ReadRes.isFailed]⟩
+  · exact ⟨[.fail], by simp [hr, hs], by simp [hr, ReadRes.isFailed]⟩
+
+theorem readExact_consumed : ∀ (r : Reader) (need : Nat) (acc : List UInt8),
+    ∃ pre, r.script = pre ++ (readExact r need acc).2.script ∧
+      ((readExact r need acc).1.isFailed = true ↔ Ev.fail ∈ pre) := by
+  intro r need acc
+  fun_induction readExact r need acc with
+  | case1 r acc => exact ⟨[], by simp, by simp [ExactRes.isFailed]⟩
+  | case2 r need acc hn bs r' hr hz =>
+    obtain ⟨pre, h1, h2⟩ := read_consumed r need
+    rw [hr] at h1 h2
+    exact ⟨pre, h1, by simpa [ExactRes.isFailed, ReadRes.isFailed] using h2⟩
+  | case3 r need acc hn bs r' hr hz ih =>
+    obtain ⟨pre, h1, h2⟩ := read_consumed r need
+    rw [hr] at h1 h2
+    obtain ⟨pre2, h3, h4⟩ := ih
+    simp only [ReadRes.isFailed, Bool.false_eq_true, false_iff] at h2
+    refine ⟨pre ++ pre2, by rw [List.append_assoc, ← h3, ← h1], ?_⟩
+    rw [h4]; simp [h2]
+  | case4 r need acc hn r' hr ih =>
+    obtain ⟨pre, h1, h2⟩ := read_consumed r need
+    rw [hr] at h1 h2
+    obtain ⟨pre2, h3, h4⟩ := ih
+    simp only [ReadRes.isFailed, Bool.false_eq_true, false_iff] at h2
+    refine ⟨pre ++ pre2, by rw [List.append_assoc, ← h3, ← h1], ?_⟩
+    rw [h4]; simp [h2]
+  | case5 r need acc hn r' hr =>
+    obtain ⟨pre, h1, h2⟩ := read_consumed r need
+    rw [hr] at h1 h2
+    exact ⟨pre, h1, by simpa [ExactRes.isFailed, ReadRes.isFailed] using h2⟩
+
+/-- `read_as_bytes` through any script: the outcome is `err` exactly when one of the events consumed was a hard
+    error; it is never a panic -/
+theorem readBytesIO_consumed : ∀ (r : Reader) (acc : Arr),
+    ∃ pre, r.script = pre ++ (readBytesIO r acc).2.script ∧
+      ((readBytesIO r acc).1.isErr = true ↔ Ev.fail ∈ pre) ∧ (readBytesIO r acc).1.isPanic = false := by
+  intro r acc
+  fun_induction readBytesIO r acc with
+  | case1 r acc buf r' hr ih =>
+    obtain ⟨pre, h1, h2⟩ := readExact_consumed r Gen.recordLen []
+    rw [hr] at h1 h2
+    obtain ⟨pre2, h3, h4, h5⟩ := ih
+    simp only [ExactRes.isFailed, Bool.false_eq_true, false_iff] at h2
+    refine ⟨pre ++ pre2, by rw [List.append_assoc, ← h3, ← h1], ?_, h5⟩
+    rw [h4]; simp [h2]
+  | case2 r acc r' hr =>
+    obtain ⟨pre, h1, h2⟩ := readExact_consumed r Gen.recordLen []
+    rw [hr] at h1 h2
+    exact ⟨pre, h1, by simpa [ExactRes.isFailed, Outcome.isErr] using h2, rfl⟩
+  | case3 r acc r' hr =>
+    obtain ⟨pre, h1, h2⟩ := readExact_consumed r Gen.recordLen []
+    rw [hr] at h1 h2
+    exact ⟨pre, h1, by simpa [ExactRes.isFailed, Outcome.isErr] using h2, rfl⟩
+
+theorem readToEnd_consumed : ∀ (r : Reader) (wants : List Nat) (acc : List UInt8),
+    ∃ pre, r.script = pre ++ (readToEnd r wants acc).2.script ∧
+      ((readToEnd r wants acc).1 = none ↔ Ev.fail ∈ pre) := by
+  intro r wants acc
+  fun_induction readToEnd r wants acc with
+  | case1 r wants acc bs r' hr hz =>
+    obtain ⟨pre, h1, h2⟩ := read_consumed r (wants.headD 32)
+    rw [hr] at h1 h2
+    exact ⟨pre, h1, by simpa [ReadRes.isFailed] using h2⟩
+  | case2 r wants acc bs r' hr hz ih =>
+    obtain ⟨pre, h1, h2⟩ := read_consumed r (wants.headD 32)
+    rw [hr] at h1 h2
+    obtain ⟨pre2, h3, h4⟩ := ih
+    simp only [ReadRes.isFailed, Bool.false_eq_true, false_iff] at h2
+    refine ⟨pre ++ pre2, by rw [List.append_assoc, ← h3, ← h1], ?_⟩
+    rw [h4]; simp [h2]
+  | case3 r wants acc r' hr ih =>
+    obtain ⟨pre, h1, h2⟩ := read_consumed r (wants.headD 32)
+    rw [hr] at h1 h2
+    obtain ⟨pre2, h3, h4⟩ := ih
+    simp only [ReadRes.isFailed, Bool.false_eq_true, false_iff] at h2
+    refine ⟨pre ++ pre2, by rw [List.append_assoc, ← h3, ← h1], ?_⟩
+    rw [h4]; simp [h2]
+  | case4 r wants acc r' hr =>
+    obtain ⟨pre, h1, h2⟩ := read_consumed r (wants.headD 32)
+    rw [hr] at h1 h2
+    exact ⟨pre, h1, by simpa [ReadRes.isFailed] using h2⟩
+
+theorem readText_not_panic (bytes : List UInt8) : (readText bytes).isPanic = false := by
+  unfold readText
+  split
+  · rfl
+  · exact parseText_not_panic _
+
+/-- `read_as_string` through any script and any buffer sizes: a consumed hard error gives `err`; never a panic -/
+theorem readTextIO_consumed (r : Reader) (wants : List Nat) :
+    ∃ pre, r.script = pre ++ (readTextIO r wants).2.script ∧
+      (Ev.fail ∈ pre → (readTextIO r wants).1.isErr = true) ∧ (readTextIO r wants).1.isPanic = false := by
+  obtain ⟨pre, h1, h2⟩ := readToEnd_consumed r wants []
+  unfold readTextIO
+  split
+  · rename_i r' heq
+    rw [heq] at h1 h2
+    exact ⟨pre, h1, fun _ => rfl, rfl⟩
+  · rename_i bytes r' heq
+    rw [heq] at h1 h2
+    refine ⟨pre, h1, fun hf => ?_, readText_not_panic _⟩
+    have := h2.mpr hf
+    simp at this
+
+/-- a fault of a writer: a hard error, or a call that accepts nothing (`WriteZero`) -/
+def isFault (e : Ev) : Prop := e = .fail ∨ e = .give 0
+
+theorem fault_cons_iff {e0 : Ev} {pre : List Ev} (h : ¬ isFault e0) :
+    (∃ e ∈ e0 :: pre, isFault e) ↔ ∃ e ∈ pre, isFault e := by
+  constructor
+  · rintro ⟨e, he, hf⟩
+    rcases List.mem_cons.mp he with rfl | he
+    · exact absurd hf h
+    · exact ⟨e, he, hf⟩
+  · rintro ⟨e, he, hf⟩; exact ⟨e, List.mem_cons_of_mem _ he, hf⟩
+
+theorem writeAll_consumed : ∀ (script : List Ev) (buf : List UInt8),
+    ∃ pre, script = pre ++ (writeAll script buf).2.2 ∧
+      ((writeAll script buf).1 = false ↔ ∃ e ∈ pre, isFault e) ∧ (writeAll script buf).2.1 <+: buf := by
+  intro script buf
+  fun_induction writeAll script buf with
+  | case1 script buf hz => exact ⟨[], by simp, by simp, List.nil_prefix⟩
+  | case2 buf hz => exact ⟨[], by simp, by simp, List.prefix_refl _⟩
+  | case3 buf hz k s hm =>
+    refine ⟨[.give k], by simp, ?_, List.nil_prefix⟩
+    have : k = 0 := by omega
+    simp [isFault, this]
+  | case4 buf hz k s hm ok out s' hrec ih =>
+    obtain ⟨pre, h1, h2, h3⟩ := ih
+    rw [hrec] at h1 h2 h3
+    have hk : k ≠ 0 := by omega
+    refine ⟨.give k :: pre, by simp [h1], ?_, ?_⟩
+    · rw [h2]; exact (fault_cons_iff (by simp [isFault, hk])).symm
+    · simp only at h3 ⊢
+      conv => rhs; rw [← List.take_append_drop (min k buf.length) buf]
+      exact (List.prefix_append_right_inj _).mpr h3
+  | case5 buf hz s ih =>
+    obtain ⟨pre, h1, h2, h3⟩ := ih
+    refine ⟨.interrupted :: pre, by rw [List.cons_append, ← h1], ?_, h3⟩
+    rw [h2]; exact (fault_cons_iff (by simp [isFault])).symm
+  | case6 buf hz s =>
+    exact ⟨[.fail], by simp, by simp [isFault], List.nil_prefix⟩
+
+theorem writeAll_true_out : ∀ (script : List Ev) (buf : List UInt8), (writeAll script buf).1 = true →
+    (writeAll script buf).2.1 = buf := by
+  intro script buf
+  fun_induction writeAll script buf with
+  | case1 script buf hz => intro _; simp [List.eq_nil_of_length_eq_zero hz]
+  | case2 buf hz => intro _; rfl
+  | case3 buf hz k s hm => intro h; simp at h
+  | case4 buf hz k s hm ok out s' hrec ih =>
+    intro h
+    rw [hrec] at ih
+    simp only at h ih ⊢
+    rw [ih h, List.take_append_drop]
+  | case5 buf hz s ih => exact ih
+  | case6 buf hz s => intro h; simp at h
+
+/-- a sequence of `write_all` calls through any script: it fails exactly when a fault was consumed, and what
+    reached the sink is a prefix of the whole output -/
+theorem writePieces_consumed : ∀ (ps : List (List UInt8)) (script : List Ev),
+    ∃ pre, script = pre ++ (writePieces script ps).2.2 ∧
+      ((writePieces script ps).1 = false ↔ ∃ e ∈ pre, isFault e) ∧ (writePieces script ps).2.1 <+: ps.flatten := by
+  intro ps
+  induction ps with
+  | nil => intro script; exact ⟨[], by simp [writePieces], by simp [writePieces], by simp [writePieces]⟩
+  | cons p ps ih =>
+    intro script
+    obtain ⟨pre, h1, h2, h3⟩ := writeAll_consumed script p
+    simp only [writePieces]
+    cases hw : writeAll script p with
+    | mk ok rest =>
+      obtain ⟨out, s'⟩ := rest
+      rw [hw] at h1 h2 h3
+      simp only at h1 h2 h3
+      cases ok with
+      | false =>
+        simp only
+        refine ⟨pre, h1, by simpa using h2, ?_⟩
+        simp only [List.flatten_cons]
+        exact h3.trans (List.prefix_append _ _)
+      | true =>
+        simp only
+        obtain ⟨pre2, g1, g2, g3⟩ := ih s'
+        have hnone : ¬ ∃ e ∈ pre, isFault e := by
+          intro hex; have := h2.mpr hex; simp at this
+        have hout : out = p := by
+          have := writeAll_true_out script p (by rw [hw])
+          rw [hw] at this; exact this
+        refine ⟨pre ++ pre2, by rw [List.append_assoc, ← g1, ← h1], ?_, ?_⟩
+        · rw [g2]
+          constructor
+          · rintro ⟨e, he, hf⟩; exact ⟨e, by simp [he], hf⟩
+          · rintro ⟨e, he, hf⟩
+            simp only [List.mem_append] at he
+            rcases he with he | he
+            · exact absurd ⟨e, he, hf⟩ hnone
+            · exact ⟨e, he, hf⟩
+        · simp only [List.flatten_cons, hout]
+          exact (List.prefix_append_right_inj _).mpr g3
+
 end B.Serial
